@@ -184,49 +184,64 @@ def shard_worker(args):
         prop = load_prop(pid)
         rng = random.Random((seed * 1000003 + shard * 7919) ^ zlib.crc32(pid.encode()))
         t0 = time.time()
-        scen = []
-        for sc in prop.generate(rng, tier, shard, nshards, budget_scale):
-            scen.append(sc)
-        runs = []
-        for sc in scen:
-            try:
-                li, lo = prop.run_impl(sc)
-            except Exception as e:
-                runs.append((sc, None, None, 'harness-exception: %s' % traceback.format_exc()[-800:]))
-                continue
-            runs.append((sc, li, lo, None))
-        model_outs = None
-        if not judge_only:
-            idx = [k for k, r in enumerate(runs) if r[1] is not None and not r[0].get('no_model')]
-            mo = core.run_model_batch([runs[k][1] for k in idx]) if idx else []
-            model_outs = {k: mo[j] for j, k in enumerate(idx)}
         failures = []
+        nfail = 0
         keys = set()
         stats = {'scenarios': 0, 'ops': 0, 'lines_compared': 0, 'dist': {}}
         samples = []
-        for k, (sc, li, lo, herr) in enumerate(runs):
-            if herr is not None:
-                failures.append({'kind': 'harness', 'scenario': sc, 'detail': herr})
-                continue
-            stats['scenarios'] += 1
-            stats['ops'] += len(li)
-            verdicts = prop.judge(sc, li, lo)
-            for (clause, detail) in verdicts:
-                failures.append({'kind': 'judge', 'scenario': sc, 'clause': clause, 'detail': detail})
-            if model_outs is not None and k in model_outs:
-                mo = model_outs[k]
-                d = first_diff_projected(prop, li, lo, mo)
-                stats['lines_compared'] += len(li)
-                if d is not None:
-                    failures.append({'kind': 'correspondence', 'scenario': sc, 'line': d, 'op': li[d],
-                                     'impl': lo[d] if d < len(lo) else '<missing>', 'model': mo[d] if d < len(mo) else '<missing>'})
-            key = prop.nontrivial_key(sc, li, lo)
-            if key is not None:
-                keys.add(tuple_key(key))
-            prop.tally(stats['dist'], sc, li, lo)
-            if len(samples) < 2 and shard == 0:
-                samples.append({'ops': li[:12], 'impl_out': lo[:12]})
-        return {'shard': shard, 'stats': stats, 'keys': list(keys), 'failures': failures[:20], 'nfail': len(failures),
+        CHUNK_BYTES = 24 * 1024 * 1024       # scenarios are streamed: bounded memory whatever the payload sizes
+
+        def flush(runs):
+            nonlocal nfail
+            model_outs = None
+            if not judge_only:
+                idx = [k for k, r in enumerate(runs) if r[1] is not None and not r[0].get('no_model')]
+                mo = core.run_model_batch([runs[k][1] for k in idx]) if idx else []
+                model_outs = {k: mo[j] for j, k in enumerate(idx)}
+            for k, (sc, li, lo, herr) in enumerate(runs):
+                if herr is not None:
+                    nfail += 1
+                    if len(failures) < 20:
+                        failures.append({'kind': 'harness', 'scenario': sc, 'detail': herr})
+                    continue
+                stats['scenarios'] += 1
+                stats['ops'] += len(li)
+                verdicts = prop.judge(sc, li, lo)
+                for (clause, detail) in verdicts:
+                    nfail += 1
+                    if len(failures) < 20 or not any(f['kind'] == 'judge' and f.get('clause') == clause for f in failures):
+                        failures.append({'kind': 'judge', 'scenario': sc, 'clause': clause, 'detail': detail})
+                if model_outs is not None and k in model_outs:
+                    mo = model_outs[k]
+                    d = first_diff_projected(prop, li, lo, mo)
+                    stats['lines_compared'] += len(li)
+                    if d is not None:
+                        nfail += 1
+                        if len(failures) < 20 or not any(f['kind'] == 'correspondence' for f in failures):
+                            failures.append({'kind': 'correspondence', 'scenario': sc, 'line': d, 'op': li[d],
+                                             'impl': lo[d] if d < len(lo) else '<missing>', 'model': mo[d] if d < len(mo) else '<missing>'})
+                key = prop.nontrivial_key(sc, li, lo)
+                if key is not None:
+                    keys.add(tuple_key(key))
+                prop.tally(stats['dist'], sc, li, lo)
+                if len(samples) < 2 and shard == 0:
+                    samples.append({'ops': [x[:400] for x in li[:12]], 'impl_out': [x[:400] for x in lo[:12]]})
+
+        runs, size = [], 0
+        for sc in prop.generate(rng, tier, shard, nshards, budget_scale):
+            try:
+                li, lo = prop.run_impl(sc)
+                runs.append((sc, li, lo, None))
+                size += sum(map(len, li)) + sum(map(len, lo))
+            except Exception:
+                runs.append((sc, None, None, 'harness-exception: %s' % traceback.format_exc()[-800:]))
+            if size > CHUNK_BYTES or len(runs) >= 4000:
+                flush(runs)
+                runs, size = [], 0
+        if runs:
+            flush(runs)
+        failures = failures[:40]
+        return {'shard': shard, 'stats': stats, 'keys': list(keys), 'failures': failures, 'nfail': nfail,
                 'samples': samples, 'wall': time.time() - t0}
     except Exception:
         return {'shard': shard, 'fatal': traceback.format_exc()}
